@@ -41,6 +41,7 @@ import ICal.Lemmas.Parse
 import ICal.Lemmas.Line
 import ICal.Props.C06
 import ICal.Props.C09
+import ICal.Lemmas.BodiesParse
 namespace ICal.C01
 
 /-- Key lemma: from any running state, the lines of a well-formed tree push the tree — with the
@@ -341,5 +342,55 @@ example : parseText (fun _ => true) decId false
 /-- `x\, y` in SUMMARY (TEXT) is inside the domain; in a URL it is not (D02) -/
 example : ItemOK ⟨"SUMMARY".toList, "x\\, y".toList, []⟩ ∧ ¬ ItemOK ⟨"URL".toList, "x\\, y".toList, []⟩ := by
   decide +kernel
+
+/-! ### the regenerated `Component.from_ical` (ICal/Gen/BodiesParse.lean, rewritten from cal.py by tools/py2lean.py on every run)
+
+`Bodies.loopP` / `Bodies.fromIcalP` are the translated loop / function with the external pieces of
+ICal/Model/ParsePieces.lean; `Bodies.fromIcalTrees` is what the caller sees of the result. The theorems above speak
+of `pstep` / `prun` / `parseText`; these say that the code, as translated, is that model. -/
+
+/-- one iteration of the translated loop is `pstep` (the Python list has its top at the end) -/
+theorem body_from_ical_step (tzok : Comp → Bool) (dec : Dec) (st : PState) (hst : st.stopped = false) (line : Str) (rest : List Str) :
+    Bodies.loopP tzok dec st.stack.reverse st.comps (line :: rest) = Bodies.liftStep tzok dec rest (pstep tzok dec st line) :=
+  Bodies.loop_cons tzok dec st hst line rest
+
+/-- the translated loop is `prun` -/
+theorem body_from_ical_loop (tzok : Comp → Bool) (dec : Dec) (lines : List Str) (st : PState) (hst : st.stopped = false) :
+    Bodies.loopP tzok dec st.stack.reverse st.comps lines =
+      match prun tzok dec st lines with
+      | none => .error .valueError
+      | some st' => .ok (st'.stack.reverse, st'.comps) :=
+  Bodies.loop_prun tzok dec lines st hst
+
+/-- the translated `Component.from_ical(st, multiple)` is `parseLinesP` on the unfolded lines -/
+theorem body_from_ical (tzok : Comp → Bool) (dec : Dec) (st : Str) (multiple : Bool) :
+    Bodies.fromIcalP tzok dec st multiple =
+      match parseLinesP tzok dec multiple (linesFromIcal st) with
+      | none => .error .valueError
+      | some cs => if multiple then .ok (.many cs) else match cs with
+        | c :: _ => .ok (.one c)
+        | [] => .error .indexError :=
+  Bodies.fromIcal_parseLinesP tzok dec st multiple
+
+/-- what the caller sees of the translated function is `parseText` -/
+theorem body_parseText (tzok : Comp → Bool) (dec : Dec) (multiple : Bool) (st : Str) :
+    Bodies.fromIcalTrees tzok dec multiple st = parseText tzok dec multiple st :=
+  Bodies.fromIcalTrees_parseText tzok dec multiple st
+
+/-- `parse_toIcal` on the translated function: it reads `to_ical()` of a tree of the domain back as that tree -/
+theorem body_parse_toIcal (tzok : Comp → Bool) (dec : Dec) (t : Comp) (hwf : WF dec t) (htz : TzOK tzok true t) (h : ∀ it ∈ items true t, ItemOK it) :
+    ∃ text, toIcal true t = .ok text ∧ Bodies.fromIcalTrees tzok dec false text = some ([sortedTree true t], []) := by
+  obtain ⟨text, h1, h2⟩ := parse_toIcal tzok dec t hwf htz h
+  exact ⟨text, h1, by rw [body_parseText]; exact h2⟩
+
+/-- `parse_any_text` on the translated function -/
+theorem body_parse_any_text (tzok : Comp → Bool) (dec : Dec) (t : Comp) (hwf : WF dec t)
+    (htz : TzOK tzok true t) (h : ∀ it ∈ items true t, ItemOK it)
+    (hcr : ∀ it ∈ items true t, CR ∉ lnOf true it)
+    (ps : List PhysLine) (rs : List Rewrite) (hps : ∀ p ∈ ps, p.ok)
+    (hcv : Pointwise CaseVariant ((items true t).map (lnOf true)) (ps.map PhysLine.logical))
+    (hc : rs.countP Rewrite.isBOM ≤ 1) :
+    Bodies.fromIcalTrees tzok dec false (applyAll rs (physText ps)) = some ([sortedTree true t], []) := by
+  rw [body_parseText]; exact parse_any_text tzok dec t hwf htz h hcr ps rs hps hcv hc
 
 end ICal.C01
